@@ -163,6 +163,8 @@ def run_config(mod, m, cfg, argi, events):
             sel = f"f > $v:@{cfg['bytag'][name]}"
         if cfg["how"] == "override":
             p = probing(sel, env=ns, overridable=True)
+            # what the supplying probe itself is shown goes to `events` (scanned for the marker)
+            p.subscribe(lambda d: events.append(("shown-to-overridable-probe", repr(d))))
             p.override(val)
             cms.append(p)
         else:
@@ -173,7 +175,7 @@ def run_config(mod, m, cfg, argi, events):
             if cfg["how"] == "tweaking":
                 cms.append(Overlay.tweaking({so: val}))
             else:
-                cms.append(Overlay.rewriting({so: (lambda d, val=val: val)}))
+                cms.append(Overlay.rewriting({so: (lambda d, val=val: (events.append(("shown-to-rewriting-function", repr(d))), val)[1])}))
     for name in cfg.get("abstainers", []):
         # a more recently activated rule on the same declaration that abstains: the supplied value
         # of the earlier rule must still be used
@@ -265,7 +267,14 @@ def check_program(m, mod, rnd, res, case_base, nconf, watch, mode="main", findin
                     err = _reraise(mod, fn, argi, m, cfg)
                     if isinstance(err, PteraNameError):
                         res.deciding += 1
-                        info = err._info_at_raise
+                        # looked at where a user would: after the probes that instrumented the function
+                        # have been left (the error object outlives them)
+                        try:
+                            info = dict(err.info())
+                        except Exception as ex:
+                            info = {"<info() failed after the probes were left>": repr(ex)}
+                        if info != err._info_at_raise:
+                            res.violation(case, {"what": "PteraNameError.info() differs between the moment of the raise and after the probes were left", "at_raise": repr(err._info_at_raise)[:300], "later": repr(info)[:300]})
                         exp_tags = m["decl_ann"].get(var)
                         ann = info.get("annotation")
                         ann_tags = sorted(getattr(t, "name", "?") for t in getattr(ann, "members", [ann])) if exp_tags else None
